@@ -426,7 +426,7 @@ public:
   friend constexpr blocking_kind
   tag_invoke(tag_t<unifex::blocking>, const type& sender) noexcept {
     // get the runtime blocking_kind for the predecessor
-    blocking_kind pred = blocking(sender.pred_);
+    blocking_kind pred = unifex::blocking(sender.pred_);
     // we have to go with the static result for the successors since we don't
     // know how pred_ will complete
     blocking_kind succ = successor_types<_let_v::max_blocking_kind>{}();
